@@ -16,7 +16,7 @@ from checks import C28
 
 
 def generate(ctx):
-    a = C28.generate(ctx)
+    a = C28.generate_consts(ctx)
     b = ctx.run_extract("evmclones", ["lean"], out_lean="EvmClones.lean")
     return None if a is None or b is None else b
 
